@@ -3,7 +3,10 @@ package main
 import (
 	"errors"
 	"fmt"
+	"math"
 	"reflect"
+	"strings"
+	"time"
 
 	redact "github.com/cockroachdb/redact"
 )
@@ -45,6 +48,7 @@ var (
 type (
 	namedInt2  int
 	namedFloat float64
+	namedU8    uint8
 	namedBool  bool
 	namedBytes []byte
 	namedSlice []int
@@ -204,6 +208,39 @@ func universe() []Val {
 	ad(sv("func", true, func(v int) interface{} { return inf }))
 	add(sv("func(nil)", true, func(v int) interface{} { return (func())(nil) }))
 	ad(sv("struct{*int}", true, func(v int) interface{} { x := secInt[v]; return struct{ P *int }{&x} }))
+	// --- further shapes, kinds, lengths
+	long0, long1 := strings.Repeat("l", 61)+mStart+"xyz\n"+strings.Repeat("m", 40), strings.Repeat("L", 61)+mEnd+"XYZ\n"+strings.Repeat("M", 40)
+	add(sv("string>64 bytes", true, func(v int) interface{} { return [2]string{long0, long1}[v] }))
+	add(sv("[]byte>64 bytes", true, func(v int) interface{} { return []byte([2]string{long0, long1}[v]) }))
+	add(sv("time.Duration", true, func(v int) interface{} { return [2]time.Duration{1500 * time.Millisecond, -72 * time.Hour}[v] }))
+	add(sv("[]time.Duration", true, func(v int) interface{} { return []time.Duration{time.Duration(secInt[v]) * time.Second, 0} }))
+	add(sv("float NaN", true, func(v int) interface{} { return [2]float64{math.NaN(), math.Inf(1)}[v] }))
+	add(sv("rune edge cases", true, func(v int) interface{} { return [2]int32{0x10ffff, 0xd800}[v] }))
+	add(sv("int for %c LF", true, func(v int) interface{} { return 10 }))
+	add(sv("[][]byte", true, func(v int) interface{} { return [][]byte{[]byte(secPlain[v]), nil, []byte(secBytes[v])} }))
+	add(sv("[2][2]int", true, func(v int) interface{} { return [2][2]int{{secInt[v], 1}, {2, 3 + v}} }))
+	add(sv("[0]int", true, func(v int) interface{} { return [0]int{} }))
+	add(sv("struct{}", true, func(v int) interface{} { return struct{}{} }))
+	add(sv("map 4 keys", true, func(v int) interface{} {
+		return map[string]interface{}{"a" + secKeyA[v]: secInt[v], "b" + secKeyB[v]: secStrLF[v], "c": nil, "d" + secKeyA[v]: []int{v + 1}}
+	}))
+	add(sv("map[float64]int NaN keys", true, func(v int) interface{} { return map[float64]int{math.NaN(): 1 + v, secF[v]: 2} }))
+	add(sv("map[interface{}]interface{}", true, func(v int) interface{} {
+		return map[interface{}]interface{}{1 + v: secStr[v], secKeyA[v]: secInt[v], true: nil}
+	}))
+	add(sv("deep nesting", true, func(v int) interface{} {
+		return []interface{}{map[string]interface{}{secKeyA[v]: []interface{}{structT{secInt[v], secStr[v], []string{secStrLF[v]}}}}}
+	}))
+	add(sv("struct embedded pointer", true, func(v int) interface{} {
+		return struct {
+			*structInner
+			N namedStr
+		}{nil, namedStr(secPlain[v])}
+	}))
+	add(sv("[]*int nil", true, func(v int) interface{} { return []*int{nil, nil} }))
+	add(sv("[]fmt.Stringer{nil,x}", true, func(v int) interface{} { return []fmt.Stringer{nil, strT{secStr[v]}} }))
+	add(sv("complex in container", true, func(v int) interface{} { return []interface{}{secC[v], complex64(secC[v])} }))
+	add(sv("uint8 named slice", true, func(v int) interface{} { return []namedU8{namedU8('h' + v), 'a'} }))
 	// --- reflect.Value
 	add(sv("reflect(int)", true, func(v int) interface{} { return reflect.ValueOf(secInt[v]) }))
 	add(sv("reflect(string)", true, func(v int) interface{} { return reflect.ValueOf(secStrLF[v]) }))
